@@ -53,10 +53,12 @@ class DecoderRun2:
             return r
         if op in ('Eq', 'Ne') and k.v == 0:
             r = exp.kbits_binop(op, x, k)
+            ev = getattr(getattr(self, 'I', None), '_cur_path', None)
+            ev = ev.events if ev is not None else self.cur_events
             if isinstance(r, Int):
-                self.cur_events.append(('zero-test', x.idx, bool(r.v) == (op == 'Eq')))
+                ev.append(('zero-test', x.idx, bool(r.v) == (op == 'Eq')))
                 return r
-            self.cur_events.append(('zero-test', x.idx, None))
+            ev.append(('zero-test', x.idx, None))
             return ('bool', PAYLOAD_ZERO) if op == 'Eq' else ('bool', ('not', PAYLOAD_ZERO))
         return None
 
@@ -130,9 +132,18 @@ class DecoderRun2:
 
     def take_from_reader(self, I, fr, op, n):
         """`op` is `&mut R` with R = &[u8] (std's Read for slices advances the slice): the next n bytes, or fewer at the end."""
-        rp = stdmodel.ref_of(fr, op)
+        from facts import op_place as _opl
+        pl_ = _opl(op)
+        ty_ = fr.body.local_ty(pl_['l']) if pl_ is not None and not pl_['p'] else ''
+        by_value = ty_.replace(' ', '') in ('&[u8]', "&'_[u8]") or (ty_.startswith('&') and ty_.endswith('[u8]') and not ty_.startswith('&mut &') and 'mut &' not in ty_)
+        rp = None if by_value else stdmodel.ref_of(fr, op)
         if rp is None:
-            return None
+            # the reader passed by value (`&[u8]` itself): nothing to advance
+            v0 = fr.operand(op)
+            for _ in range(6):
+                if isinstance(v0, Ref):
+                    v0 = fr._project(fr.store.get(v0.root, TOP), v0.proj)
+            return list(v0.items[:n]) if isinstance(v0, Agg) else None
         cur = fr._project(fr.store.get(rp[0], TOP), rp[1])
         if isinstance(cur, Agg):
             fr.store[rp[0]] = fr._update(fr.store.get(rp[0]), list(rp[1]), Agg(cur.items[n:], cur.kind)) if rp[1] else Agg(cur.items[n:], cur.kind)
@@ -175,6 +186,7 @@ class DecoderRun2:
         I.binop_hook = self.binop_hook
         I.propagate_hooks = True
         I.fork_inlined = True
+        self.I = I
         self.cur_events = []
         res = I.run(self.path, [('byref', selfv)])
         self.call_sites = I.call_sites
